@@ -166,7 +166,7 @@ def c17(prop, tier, seed):
     wd = lib.workdir(prop)
     rounds, n_types = cfg["cases"][tier]
     tot = {"runs": 0, "values": 0, "stdout": 0, "stderr": 0}
-    types = structs = enums = 0
+    types = structs = enums = topcmds = 0
     by_sig, violations, samples = {}, [], []
     for k in range(rounds):
         rseed = seed * 1000 + k
@@ -177,6 +177,7 @@ def c17(prop, tier, seed):
         types += meta["types"]
         structs += meta["structs"]
         enums += meta["enums"]
+        topcmds += meta.get("decorated_commands", 0)
         for key in tot:
             tot[key] += summary[key]
         for m in mism:
@@ -195,6 +196,7 @@ def c17(prop, tier, seed):
             samples.append({"generated_source_excerpt": src[at:at + 1500]})
     merged = {"evaluations": tot["runs"] * 2,
               "counters": {"types": types, "structs": structs, "enums": enums,
+                           "decorated_top_level_commands": topcmds,
                            "vector_runs": tot["runs"], "outcome:value": tot["values"],
                            "outcome:stdout": tot["stdout"], "outcome:stderr": tot["stderr"],
                            "crates_compiled": rounds},
